@@ -63,17 +63,21 @@ QMixed  == QMixedOk
 \* failing callbacks in the one-file and in the sharded (serial writers only) case
 QCbFail == WithCbFail({Raw(<<1, Cap, Cap + 1>>, Ident(3), {}, 2, 0), Raw(<<Cap + 1, Cap + 1, 1>>, Ident(3), {}, 3, 0),
                        Raw(<<1, Cap + 1, 1>>, Ident(3), {}, 2, Cap + 1)})
+\* no concurrency: max_workers = 1, one file and shards written one after the other (with every failure)
+QPlain  == LET base == {Raw(<<Cap + 1, Cap, Cap + 1>>, Shared(3), {}, 1, 0), Raw(<<Cap, 1, Cap>>, Shared(3), {}, 1, Cap + 1)}
+           IN base \cup { [r EXCEPT !.fail = {o}] : r \in base, o \in {1, 2} } \cup WithCbFail(base)
 \* every kind of exception: the behaviours are the same, so one small base is enough
 QKinds  == WithKinds({Raw(<<Cap, Cap, 1>>, Ident(3), {2}, 2, 0), RawK(<<Cap, Cap, 1>>, Ident(3), {}, {1}, "OSError", 2, 0),
                       [MixedTight EXCEPT !.fail = {1}]})
 
 Configs ==
-  CASE Family = "quick"    -> QSingle \cup QShard \cup QFour \cup QMixed \cup QCbFail \cup QKinds
+  CASE Family = "quick"    -> QSingle \cup QShard \cup QFour \cup QMixed \cup QCbFail \cup QKinds \cup QPlain
     [] Family = "live"     -> GenV({<<1, Cap, Cap + 1>>, <<Cap + 1, Cap + 1, 1>>, <<Cap, Cap, 1>>}, {2, 3}, 1, {0})
                               \cup {Raw(<<Cap + 1, 1, Cap + 1>>, Shared(3), {}, 2, Cap + 1), Raw(<<1, Cap, 1>>, Ident(3), {1}, 6, Cap)}
                               \cup QMixedOk \cup {[MixedTight EXCEPT !.fail = {1}], [MixedOver EXCEPT !.cbfail = {3}]}
     [] Family = "mixed"    -> QMixed
     [] Family = "mixed4"   -> QMixed \cup {Mixed4, [Mixed4 EXCEPT !.fail = {1}], [Mixed4 EXCEPT !.cbfail = {4}]}
+    [] Family = "plain"    -> QPlain \cup WithKinds({Raw(<<1, Cap>>, Ident(2), {2}, 1, 0)})
     [] Family = "cbfail"   -> WithCbFail(Gen(3, {1, Cap, Cap + 1}, {2, 3}, TRUE, 0, {0}))
                               \cup WithCbFail(Gen(3, {1, Cap, Cap + 1}, {2, 6}, TRUE, 0, {Cap + 1, 2 * Cap}))
     [] Family = "single3"  -> Gen(3, SizeSet, {2, 3}, TRUE, 1, {0})
